@@ -1030,3 +1030,64 @@ MUTANTS += [
  dict(id='F57-benign-open-files-bound-lt-form', props=['C15', 'C03'], expect='SILENT',
       edits=[(MS, _F57_BOUND, '\t\tif !(open < dataStreams) {\n\t\t\treturn fmt.Errorf("file begin for %s while %d files are open, as many as there are data streams", begin.RelPath, open)\n\t\t}\n')]),
 ]
+
+# --- round 6 (DESIGN 8.12) and the repairs F57b, F61-F64 ---
+QS = 'internal/transferquic/quic.go'
+_ADDIF_MAPS = '\tif h.sessions[sessionID] == nil {\n\t\th.sessions[sessionID] = make(map[string]*peerConnection)\n\t}\n\tif h.byPeerID[sessionID] == nil {\n\t\th.byPeerID[sessionID] = make(map[string]string)\n\t}\n'
+_ENDWAIT = '\tselect {\n\tcase <-ackDone:\n\tcase <-time.After(endDeliveryWait):\n\tcase <-ctx.Done():\n\t}\n\treturn nil\n}\n'
+_F57B = '\t\tif open < dataStreams {\n\t\t\tactiveCount++\n\t\t}\n\t\tstatsMu.Unlock()\n\t\tif open >= dataStreams {'
+MUTANTS += [
+ # R-VALIDATOR-ALL-ITEMS
+ dict(id='R6-text-check-only-for-files-nested', props=['C01', 'C18'], expect='R-VALIDATOR-ALL-ITEMS/all-items/',
+      edits=[(CP, '\t\tif !utf8.ValidString(item.RelPath) {\n\t\t\treturn fmt.Errorf("file name %q is not valid UTF-8 and cannot be transferred", item.RelPath)\n\t\t}\n', '\t\tif !item.IsDir {\n\t\t\tif !utf8.ValidString(item.RelPath) {\n\t\t\t\treturn fmt.Errorf("file name %q is not valid UTF-8 and cannot be transferred", item.RelPath)\n\t\t\t}\n\t\t}\n')]),
+ dict(id='R6-benign-text-check-joined-condition', props=['C01', 'C18', 'C03'], expect='SILENT',
+      edits=[(CP, '\t\tif !utf8.ValidString(item.RelPath) {\n\t\t\treturn fmt.Errorf("file name %q is not valid UTF-8 and cannot be transferred", item.RelPath)\n\t\t}\n\t\tif !utf8.ValidString(item.ID) {\n\t\t\treturn fmt.Errorf("id %q of %s is not valid UTF-8 and cannot be transferred", item.ID, item.RelPath)\n\t\t}\n', '\t\tif !utf8.ValidString(item.RelPath) || !utf8.ValidString(item.ID) {\n\t\t\treturn fmt.Errorf("name %q or id %q is not valid UTF-8 and cannot be transferred", item.RelPath, item.ID)\n\t\t}\n')]),
+ # R-FRESH-FALLBACK
+ dict(id='R6-fallback-removal-dropped', props=['C06', 'C05'], expect='R-FRESH-FALLBACK/fresh-fallback/',
+      edits=[(MS, '\t\t\tif rootedDir != baseDir {\n\t\t\t\t_ = os.Remove(SidecarPath(rootedDir, "", sidecarIdentifier(item)))\n\t\t\t}\n', '')]),
+ dict(id='R6-benign-fallback-removal-unconditional', props=['C06', 'C05'], expect='SILENT',
+      edits=[(MS, '\t\t\tif rootedDir != baseDir {\n\t\t\t\t_ = os.Remove(SidecarPath(rootedDir, "", sidecarIdentifier(item)))\n\t\t\t}\n', '\t\t\t_ = os.Remove(SidecarPath(rootedDir, "", sidecarIdentifier(item)))\n')]),
+ # R-JOIN-AS-CHECKED
+ dict(id='R6-sidecarpath-cleans-root', props=['C07'], expect='R-JOIN-AS-CHECKED/join-as-checked/',
+      edits=[(SCF, '\tcleanRoot := strings.Trim(root, string(os.PathSeparator))\n', '\tcleanRoot := strings.Trim(filepath.Clean(root), string(os.PathSeparator))\n')]),
+ dict(id='R6-benign-sidecarpath-trimright', props=['C07'], expect='SILENT',
+      edits=[(SCF, '\tcleanRoot := strings.Trim(root, string(os.PathSeparator))\n', '\tcleanRoot := strings.TrimRight(strings.TrimLeft(root, string(os.PathSeparator)), string(os.PathSeparator))\n')]),
+ # R-ADMIT-BEFORE-CREATE
+ dict(id='R6-byPeerID-map-created-before-admit', props=['C11'], expect='R-ADMIT-BEFORE-CREATE/admit-before-create/',
+      edits=[(HUB, '\th.mu.Lock()\n\tif admit != nil {\n\t\tcurrent := make([]Peer, 0, len(h.sessions[sessionID]))', '\th.mu.Lock()\n\tif h.byPeerID[sessionID] == nil {\n\t\th.byPeerID[sessionID] = make(map[string]string)\n\t}\n\tif admit != nil {\n\t\tcurrent := make([]Peer, 0, len(h.sessions[sessionID]))')]),
+ dict(id='R6-benign-maps-created-in-else-of-refusal', props=['C11', 'C10'], expect='SILENT',
+      edits=[(HUB, _ADDIF_MAPS, '\tif _, have := h.sessions[sessionID]; !have {\n\t\th.sessions[sessionID] = make(map[string]*peerConnection)\n\t}\n\tif _, have := h.byPeerID[sessionID]; !have {\n\t\th.byPeerID[sessionID] = make(map[string]string)\n\t}\n')]),
+ # R-DECLARED-COUNT
+ dict(id='R6-items-slice-sized-by-total', props=['C15'], expect='R-DECLARED-COUNT/declared-count/',
+      edits=[(MS, '\texpectedFiles := make(map[string]int64)\n\titemByRelPath := make(map[string]manifest.FileItem)\n\tvar remainingBytes int64\n', '\texpectedFiles := make(map[string]int64, m.FileCount+m.FolderCount)\n\titemByRelPath := make(map[string]manifest.FileItem)\n\tvar remainingBytes int64\n')]),
+ dict(id='R6-benign-map-sized-by-len-items', props=['C15'], expect='SILENT',
+      edits=[(MS, '\texpectedFiles := make(map[string]int64)\n\titemByRelPath := make(map[string]manifest.FileItem)\n\tvar remainingBytes int64\n', '\texpectedFiles := make(map[string]int64, len(m.Items))\n\titemByRelPath := make(map[string]manifest.FileItem)\n\tvar remainingBytes int64\n')]),
+ # R-ACTIVE-BOUND
+ dict(id='R6-active-files-by-planned-streams', props=['C03'], expect='R-ACTIVE-BOUND/active-bound/',
+      edits=[(MS, '\t\t\tfor len(activeFiles) < parallelStreams {', '\t\t\tfor len(activeFiles) < cap(dataStreams) {')]),
+ # R-NAME-REFUSALS
+ dict(id='R6-relpath-refuses-control-characters', props=['C03'], expect='R-NAME-REFUSALS/refusal/',
+      edits=[(MP, '\t// Check for empty path\n\tif relPath == "" {\n\t\treturn ErrInvalidRelPath\n\t}\n', '\t// Check for empty path\n\tif relPath == "" {\n\t\treturn ErrInvalidRelPath\n\t}\n\tif strings.ContainsAny(relPath, "\\t\\n:*?") {\n\t\treturn ErrInvalidRelPath\n\t}\n')]),
+ dict(id='R6-benign-relpath-empty-first', props=['C03', 'C07'], expect='SILENT',
+      edits=[(MP, '\tif len(relPath) > maxRelPathLength {\n\t\treturn ErrRelPathTooLong\n\t}\n', '\tif relPath == "" {\n\t\treturn ErrInvalidRelPath\n\t}\n\tif len(relPath) > maxRelPathLength {\n\t\treturn ErrRelPathTooLong\n\t}\n')]),
+ # F57b
+ dict(id='F57b-undo-counted-before-visible', props=['C15'], expect='R-OPEN-FILES-BOUNDED/open-files/counted-before-visible',
+      edits=[(MS, _F57B, '\t\tstatsMu.Unlock()\n\t\tif open >= dataStreams {'),
+             (MS, '\t\tstatsMu.Lock()\n\t\tactive := activeCount\n\t\tcompleted := completedCount\n\t\tremaining := remainingBytes\n\t\tstatsMu.Unlock()\n\t\tupdateStats(active, completed, remaining)\n\t\tif opts.Resume {', '\t\tstatsMu.Lock()\n\t\tactiveCount++\n\t\tactive := activeCount\n\t\tcompleted := completedCount\n\t\tremaining := remainingBytes\n\t\tstatsMu.Unlock()\n\t\tupdateStats(active, completed, remaining)\n\t\tif opts.Resume {')]),
+ # F61
+ dict(id='F61-undo-end-delivery-wait', props=['C03'], expect='R-END-DELIVERED/end-delivered/',
+      edits=[(MS, _ENDWAIT, '\treturn nil\n}\n')]),
+ dict(id='F61-wait-on-timer-only', props=['C03'], expect='R-END-DELIVERED/end-delivered/',
+      edits=[(MS, _ENDWAIT, '\tselect {\n\tcase <-time.After(50 * time.Millisecond):\n\tcase <-ctx.Done():\n\t}\n\treturn nil\n}\n')]),
+ # F62
+ dict(id='F62-undo-close-cancels-read', props=['C03'], expect='R-CLOSE-RELEASES/close-releases/',
+      edits=[(QS, '\t(*s.stream).CancelRead(0)\n', '')]),
+ # F63
+ dict(id='F63-undo-scheme-prefix', props=['C16'], expect='R-URL-NORMALISE/url-normalise/app.buildWebSocketURL/scheme',
+      edits=[(WSF, '\tif l := strings.ToLower(serverURL); !strings.HasPrefix(l, "http://") && !strings.HasPrefix(l, "https://") {', '\tif l := strings.ToLower(serverURL); !strings.HasPrefix(l, "http") {')]),
+ # F64
+ dict(id='F64-undo-early-count-excludes-self', props=['C14', 'C16'], expect='R-RECEIVER-COUNT/receiver-count/',
+      edits=[(SRV, '\t\t\tif p.Role == "receiver" && p.PeerID != peerID {', '\t\t\tif p.Role == "receiver" {')]),
+ dict(id='F64-benign-early-count-continue-self', props=['C14', 'C16'], expect='SILENT',
+      edits=[(SRV, '\t\t\tif p.Role == "receiver" && p.PeerID != peerID {\n\t\t\t\treceivers++\n\t\t\t}\n', '\t\t\tif p.PeerID == peerID {\n\t\t\t\tcontinue\n\t\t\t}\n\t\t\tif p.Role == "receiver" {\n\t\t\t\treceivers++\n\t\t\t}\n')]),
+]
